@@ -273,6 +273,46 @@ class ModuleInfo:
         return self.path.name == "__init__.py"
 
 
+_NEG_OP = {ast.Eq: ast.NotEq, ast.NotEq: ast.Eq, ast.Is: ast.IsNot, ast.IsNot: ast.Is, ast.In: ast.NotIn,
+           ast.NotIn: ast.In}
+
+
+class _CanonNeg(ast.NodeTransformer):
+    """Semantics-preserving canonical form for negated tests, applied to every module before analysis, so that the
+    rules need to know one spelling only:
+
+        if not X: A else: B       ->  if X: B else: A        (only with a real else arm, not an elif chain)
+        a if not X else b         ->  b if X else a
+        not (x == y) / not (x is y) / not (x in y)  ->  x != y / x is not y / x not in y   (single comparison)
+
+    Positions are kept (copy_location), so reports still point at the original line."""
+
+    def visit_UnaryOp(self, node: ast.UnaryOp):
+        self.generic_visit(node)
+        if isinstance(node.op, ast.Not):
+            t = node.operand
+            if isinstance(t, ast.Compare) and len(t.ops) == 1 and type(t.ops[0]) in _NEG_OP:
+                return ast.copy_location(ast.Compare(left=t.left, ops=[_NEG_OP[type(t.ops[0])]()],
+                                                     comparators=t.comparators), node)
+            if isinstance(t, ast.UnaryOp) and isinstance(t.op, ast.Not) and False:
+                return t.operand
+        return node
+
+    def visit_If(self, node: ast.If):
+        elif_chain = len(node.orelse) == 1 and isinstance(node.orelse[0], ast.If)
+        if isinstance(node.test, ast.UnaryOp) and isinstance(node.test.op, ast.Not) and node.orelse \
+                and not elif_chain:
+            node = ast.copy_location(ast.If(test=node.test.operand, body=node.orelse, orelse=node.body), node)
+        self.generic_visit(node)
+        return node
+
+    def visit_IfExp(self, node: ast.IfExp):
+        if isinstance(node.test, ast.UnaryOp) and isinstance(node.test.op, ast.Not):
+            node = ast.copy_location(ast.IfExp(test=node.test.operand, body=node.orelse, orelse=node.body), node)
+        self.generic_visit(node)
+        return node
+
+
 class Repo:
     def __init__(self, root: Path):
         self.root = root
@@ -298,6 +338,8 @@ class Repo:
                 tree = ast.parse(src, filename=str(path))
             except SyntaxError as e:  # a tree that does not parse is not analysable
                 raise AnalysisError(f"cannot parse {rel}: {e}")
+            if os.environ.get("VERIF_NO_CANON") != "1":
+                tree = ast.fix_missing_locations(_CanonNeg().visit(tree))
             mod = ModuleInfo(name=name, path=path, relpath=str(rel), tree=tree, source=src)
             repo.modules[name] = mod
         for mod in repo.modules.values():
